@@ -19,7 +19,13 @@ def _c10_equal(case, impl, model):
     so a decoder that reports a different one for the same malformed input is not a violation."""
     if impl == model:
         return True
-    if case.split(" ", 1)[0] not in ("dec", "decbig"):
+    kind = case.split(" ", 1)[0]
+    if kind == "enc":
+        # a tree the encoder accepts but whose bytes do not decode (a simple string holding LF): both refuse; which error is not compared
+        a, sa, _ = impl.rpartition(" !")
+        b, sb, _ = model.rpartition(" !")
+        return bool(sa) and bool(sb) and a == b
+    if kind not in ("dec", "decbig"):
         return False
     a, sa, ca = impl.rpartition("!")
     b, sb, cb = model.rpartition("!")
